@@ -50,7 +50,7 @@ def run(ctx):
                 ctx.tlc("lex", "Scanner", "Scanner_thorough_%s.cfg" % a, cases_path=cases, timeout_s=14400,
                         workers=workers)
             # TLC runs `num` traces per worker; a trace = one random string of 16..40 symbols, scanned to EOF
-            n = int(os.environ.get("VERIF_LEX_SIM") or 1500)
+            n = int(os.environ.get("VERIF_LEX_SIM") or 1000)
             ctx.tlc("lex", "Scanner", "Scanner_sim.cfg", cases_path=cases, timeout_s=14400, workers=workers,
                     simulate="num=%d" % n, depth=400, seed=ctx.seed)
     h = ctx.build_harness("lexh")
